@@ -13,16 +13,16 @@ func init() {
 	register(&Rule{ID: "C09.R2", Min: 1,
 		Text: "requested exponent: on every return of quantize that is not a system-limit return, the last store to d.Exponent stores the exp parameter",
 		Run:  ruleQuantizeExponent})
-	register(&Rule{ID: "C09.R3", Min: 6,
+	register(&Rule{ID: "C09.R3", Min: 3,
 		Text: "Quantize guards: NaN + InvalidOperation is produced under each of Form==Infinite, exp < etiny(), NumDigits > Precision, exp > MaxExponent and Overflow∨Underflow after rounding; no other flags survive on those paths",
 		Run:  ruleQuantizeGuards})
-	register(&Rule{ID: "C09.R4", Min: 6,
+	register(&Rule{ID: "C09.R4", Min: 3,
 		Text: "integral variants: RoundToIntegralValue masks exactly Inexact|Rounded, RoundToIntegralExact masks nothing, both quantize to the constant exponent 0 after toIntegralSpecials; Ceil adds one only under frac.Sign() > 0 and Floor subtracts one only under frac.Sign() < 0",
 		Run:  ruleIntegralVariants})
-	register(&Rule{ID: "C10.R1", Min: 8,
+	register(&Rule{ID: "C10.R1", Min: 4,
 		Text: "QuoInteger and Rem agree: both align with upscale and propagate its error, divide with truncating BigInt.Quo/QuoRem (never the Euclidean Div/Mod/DivMod), and test DivisionImpossible on the digit count of that very quotient",
 		Run:  ruleIntDivSiblings})
-	register(&Rule{ID: "C10.R2", Min: 3,
+	register(&Rule{ID: "C10.R2", Min: 1,
 		Text: "signs: QuoInteger stores d.Negative from x.Negative != y.Negative, Rem from x.Negative alone; QuoInteger's exponent is the constant 0 on every return",
 		Run:  ruleIntDivSigns})
 }
